@@ -569,8 +569,6 @@ class WriterThread(threading.Thread):
                     if event_id == saved_id:
                         continue
                     candidate = decode_event(get_event_data(txn, event_id))
-                    if candidate.created_at >= event.created_at:
-                        continue
                     if d_tag is not None and get_d_tag(candidate.tags) != d_tag:
                         continue
                     self._delete_event(txn, candidate, log)
